@@ -20,7 +20,8 @@ namespace EPV.C20
 
 theorem finding_suolson_no_space_domain_check (p : SuOlson.P) (z t : ℝ) (ht : 0 < t) :
     SuOlson.outcome p z t = .ok := by
-  simp only [epv_tree, epv_cond, not_le.mpr ht, if_false]
+  simp only [epv_tree]
+  split_ifs with h <;> first | rfl | (exfalso; simp only [epv_cond] at h; linarith)
 
 /-- at the concrete witness z = -1/2 < 0, t = 10⁻⁹ -/
 theorem finding_suolson_negative_z_served (p : SuOlson.P) :
